@@ -261,6 +261,62 @@ var overlapForms = []map[string]interface{}{
 	{"l.0": "x", "l": []interface{}{"y"}},
 	{"a.b": "x", "a": map[string]interface{}{"b": "x"}},
 	{"a": "s", "a.b.c": true},
+	// the same list entries reached under two spellings
+	{"a": map[string]interface{}{"l": []interface{}{uint64(1), uint64(2)}}, "a.l": []interface{}{uint64(3)}},
+	{"a.l": []interface{}{map[string]interface{}{"x": uint64(1)}}, "a": map[string]interface{}{"l": []interface{}{map[string]interface{}{"x": uint64(2)}}}},
+	{"a": map[string]interface{}{"l": []interface{}{[]interface{}{uint64(1)}}}, "a.l": []interface{}{[]interface{}{uint64(2)}}},
+	{"a": map[string]interface{}{"l": []interface{}{nil, "y"}}, "a.l.1": "x"},
+}
+
+// overlapRandom: a tree some of whose settings are spelled a second time by dotted keys, with the
+// same value, another value, nil, or a value of another shape: a duplicate or a legal mixture
+func overlapRandom(r *Rng, tc TreeCfg) map[string]interface{} {
+	t := randMap(r, tc, 0)
+	if r.P(1, 2) {
+		t["a"] = map[string]interface{}{"l": []interface{}{randScalar(r), map[string]interface{}{"x": randScalar(r)}, []interface{}{randScalar(r)}}, "b": randScalar(r)}
+	}
+	out := deepCopy(t).(map[string]interface{})
+	variant := func(v interface{}) interface{} {
+		switch r.Intn(6) {
+		case 0:
+			return nil
+		case 1:
+			return randScalar(r)
+		case 2:
+			return map[string]interface{}{"x": randScalar(r)}
+		case 3:
+			return []interface{}{randScalar(r)}
+		}
+		return deepCopy(v)
+	}
+	var walk func(prefix string, v interface{}, depth int)
+	walk = func(prefix string, v interface{}, depth int) {
+		switch x := v.(type) {
+		case map[string]interface{}:
+			for _, k := range sortedKeys(x) {
+				p := k
+				if prefix != "" {
+					p = prefix + "." + k
+				}
+				if depth >= 1 && r.P(1, 4) {
+					out[p] = variant(x[k])
+				} else {
+					walk(p, x[k], depth+1)
+				}
+			}
+		case []interface{}:
+			for i, e := range x {
+				p := fmt.Sprintf("%s.%d", prefix, i)
+				if depth >= 1 && r.P(1, 4) {
+					out[p] = variant(e)
+				} else {
+					walk(p, e, depth+1)
+				}
+			}
+		}
+	}
+	walk("", t, 0)
+	return out
 }
 
 func genC05(g *Gen, c09 bool) {
@@ -297,6 +353,14 @@ func genC05(g *Gen, c09 bool) {
 		g.Add(Case{Coq: fmt.Sprintf("CNormSet %s %s %s", o.coq(), kvsOf(r, flat), coqList(coqs)),
 			Desc: map[string]interface{}{"kind": "normset", "input": descTree(flat), "outcomes": descs},
 			Tags: []string{"normset", fmt.Sprintf("outcomes=%d", len(coqs))}, Nontrivial: len(flat) > 1})
+	}
+	for i := 0; i < n/4; i++ {
+		o := normOpts{Sep: "."}
+		m := overlapRandom(r, tc)
+		coqs, descs := repeatOutcomes(r, m, o, 4)
+		g.Add(Case{Coq: fmt.Sprintf("CNormSet %s %s %s", o.coq(), kvsOf(r, m), coqList(coqs)),
+			Desc: map[string]interface{}{"kind": "normset", "input": descTree(m), "outcomes": descs},
+			Tags: []string{"normset", "overlap", fmt.Sprintf("outcomes=%d", len(coqs))}, Nontrivial: len(m) > 1})
 	}
 	if c09 {
 		// repeated Unpack (into generic and typed maps) of configs whose sections reference each
